@@ -136,7 +136,8 @@ def run_direct(ctx, hist, idx):
     rd = os.path.join(d, "testreports")
     if os.path.isdir(rd):
         for f in os.listdir(rd):
-            files[f[:-4]] = open(os.path.join(rd, f), "rb").read().decode("utf-8")
+            # (a suite name is its file's name; a path separator or a '%' in it is written %XX)
+            files[f[:-4].replace("%2F", "/").replace("%25", "%")] = open(os.path.join(rd, f), "rb").read().decode("utf-8")
     shutil.rmtree(d, ignore_errors=True)
     return files, err, model_events
 
@@ -214,7 +215,7 @@ def gen_hist(rng):
         elif k < 0.22:
             # a doctest: filed under everything before the last dot of its name
             hist.append({"obj": ["doctest", rng.choice(["pkg.mod.func", "pkg.mod.Class.method", "other.helper", "pkg.mod",
-                                                         "toplevel", "pkg.mod.TestA"])], "kind": kind, "msg": msg})
+                                                         "toplevel", "pkg.mod.TestA", "pkg.mod.a/b.c", "pkg.mod.100%.x", "pkg.mod.a%2Fb.c"])], "kind": kind, "msg": msg})
         elif k < 0.45:
             if kind == "success":
                 kind = "failure"
